@@ -60,6 +60,14 @@ def run_property(P, tier, seed, replay=None):
              all(a in P.get("allowed_axioms", []) for a in axiom_names(ass[t]["assumptions"])))
         rep.obligation("theorem:" + t, good)
 
+    if tier == "thorough" and proofs_ok and not replay:
+        okc, txt = vf.coqchk(P["theorems_module"])
+        rep.obligation("coqchk:" + P["theorems_module"], okc)
+        rep.notes.append("coqchk -silent -o: " + " ".join(txt.split())[:1200])
+        checker_cmds.append("coqchk -silent -o -Q coq HV HV." + P["theorems_module"])
+        if not okc:
+            proofs_ok = False
+
     # 2. correspondence streams
     all_obs = []
     broken_streams = []
